@@ -78,7 +78,9 @@ func evalFresh(src *formula.SourceCode, spec dataSpec) (res string) {
 	}()
 	lg := &hostLog{}
 	r := formula.NewRunner()
-	r.SetThis(spec.build(lg, time.UTC))
+	if !spec.NoMap {
+		r.SetThis(spec.build(lg, time.UTC))
+	}
 	v, err := r.Resolve(context.Background(), src.Expression)
 	return outcome(v, err) + " host=" + strings.Join(lg.calls, ";")
 }
@@ -121,6 +123,22 @@ func buildCorpus(tier string) {
 		for v := 0; v < 3; v++ {
 			corpus = append(corpus, corpusEntry{Text: t, Spec: genDataSpec(s)})
 		}
+	}
+	// roots, logarithms and powers of operands with more digits than a machine word holds
+	// (quotients that do not terminate), each over several data maps
+	for _, t := range []string{"sqrt(abs(n1) / 7 + 2)", "sqrt(abs(n2) / 7 + 2)", "ln(abs(n3) / 3 + 1)", "ln(abs(n4) / 3 + 1)", "log(abs(n1) / 9 + 1)", "exp(abs(n2 % 5) / 3)", "sqrt(n1 * n1 / 7 + 12345678901234567890.5)", "[sqrt(2 / 3), sqrt(1 / 3), ln(10 / 3), ln(20 / 3)]"} {
+		for v := 0; v < 3; v++ {
+			corpus = append(corpus, corpusEntry{Text: t, Spec: genDataSpec(s)})
+		}
+	}
+	// runners that are never given a data map: what one of them binds is its own business
+	for i, t := range []string{"$a = 41, $a", "[$a, $b, $c]", "$c = [1], $b = 'q', 0", "$a", "$b = $a, [$b]", "$a = $a + 1"} {
+		for v := 0; v < 2; v++ {
+			sp := genDataSpec(s)
+			sp.NoMap = true
+			corpus = append(corpus, corpusEntry{Text: t, Spec: sp})
+		}
+		_ = i
 	}
 	k = len(corpus)
 	// 2. the baseline: every process parses and evaluates the corpus in its own
